@@ -119,6 +119,8 @@ fn gen(seed: u64, idx: u64, t: Tier) -> J {
 			let (s, _) = gen::gen_stream(&mut r, Fmt::Yaml, nd, &cfg, true);
 			let text = String::from_utf8_lossy(&s.bytes).into_owned();
 			let text: String = if ascii { text.chars().filter(char::is_ascii).collect() } else { text };
+			// sometimes a text larger than libyaml's 16 KiB read with multi-byte characters at the buffer edges
+			let text = if !ascii && r.chance(1, 8) { String::from_utf8_lossy(&gen::boundary_text(&mut r, Fmt::Yaml)).into_owned() } else { text };
 			let enc = r.usize_below(4);
 			let reader = r.chance(1, 2);
 			let mut c = Call::reader(text.clone().into_bytes(), if r.chance(1, 2) { Some(Fmt::Yaml) } else { None }, if reader { gen::gen_sched(&mut r, text.len() * 3) } else { Sched::whole() });
